@@ -79,10 +79,11 @@ CHECKS = {
         "text": "Proof, for all inputs (full 32/64-bit domains, no bound): RepliconTick ordering/arithmetic and every ConfirmHistory operation "
                 "(new, contains, contains_any, confirm, set, set_last_tick) against the plain-set-of-confirmed-ticks oracle, as loop-free "
                 "Kani harnesses over kani::any() on the real crate; representation invariant assumed on entry and asserted on exit "
-                "(induction over operation sequences); ServerMutateTicks::confirm/contains and TickMessages unbounded with Verus on the verbatim code, "
+                "(induction over operation sequences); ServerMutateTicks::confirm/contains/contains_any and TickMessages unbounded with Verus on the verbatim code "
+                "(contains_any through one stated mechanical normalisation of `range(a..=b).any(f)` into a shim call whose body is that expression), "
                 "default/clear/mask completely with Kani on the real 64-slot ring.",
         "design_ref": "DESIGN.md §4 U1-U3, §5 C12",
-        "note": "Trusted: Kani/CBMC/CaDiCaL, Verus/Z3, vstd's VecDeque specification. ServerMutateTicks::contains_any is outside both verifiers and is covered only by a BOUNDED native run on the real code (labelled bounded in the evidence, not counted). The Bevy systems calling these (apply_mutate_messages) and the server-side message count stamping - the end-to-end 'fully received, notified exactly once' clause - "
+        "note": "Trusted: Kani/CBMC/CaDiCaL, Verus/Z3, vstd's VecDeque specification. Assumed for ServerMutateTicks::contains_any: std's documented behaviour of VecDeque::range(a..=b) + Iterator::any (shims/vecdeque_range_any.vrs) and the range precondition range_ok (start <= end seen from the last tick, shorter than half the counter range); the bounded native run u03n on the real code is kept as a cross-check of exactly that assumption (labelled bounded, not counted). The Bevy systems calling these (apply_mutate_messages) and the server-side message count stamping - the end-to-end 'fully received, notified exactly once' clause - "
                 "are covered only by a BOUNDED native stand-in (u03s: real server and client app with tracking on, every sequence of mutation/delivery steps to depth 3/4 with held, reordered and lost mutate messages; labelled bounded, not counted as proved). Not covered: confirm_tick's callers on the entity level (ConfirmHistory component updates).",
         "technique": "contract-based deductive verification: Kani/CBMC function contracts (assume-pre/assert-post, full-domain symbolic inputs; attribute form with proof_for_contract/stub_verified in the thorough tier) and Verus contracts on the verbatim code",
     },
